@@ -357,7 +357,22 @@ def evaluate(case):
         if dist < 0.99e-3 * s:
             return {"status": "skipped", "why": "closer than 1e-3 of the source size"}
         if case["cls"] in ("Triangle", "Tetrahedron", "TriangularMesh") and edge_angle(case, ol) < TRI_EDGE_CONE:
-            return {"status": "skipped", "why": "documented precision loss on a triangle edge extension"}
+            # the integral is not judged here (documented precision loss), the interior term still is:
+            # B - mu0 H must be J inside and 0 outside whatever the rounding of the surface integral
+            src = build(case)
+            B = np.asarray(src.getB(og), float)
+            H = np.asarray(src.getH(og), float)
+            out = {"status": "skipped", "why": "documented precision loss on a triangle edge extension",
+                   "inside": bool(inside), "dist_rel": dist / s}
+            Jg = M @ np.asarray(case["params"]["polarization"], float)
+            jn = np.linalg.norm(Jg)
+            if jn > 0 and np.all(np.isfinite(B)) and np.all(np.isfinite(H)):
+                dJ = B - Q.MU0 * H
+                flag = (True if np.linalg.norm(dJ - Jg) < 1e-6 * jn else False if np.linalg.norm(dJ) < 1e-6 * jn else None)
+                if flag is not None and flag != bool(inside):
+                    out.update(status="ok", rel=0.0, rel_H=0.0, rel_B=0.0, which="B", b_minus_mu0h_is_j=flag,
+                               got=[float(v) for v in B], expected=[float(v) for v in (Q.MU0 * H + (Jg if inside else 0.0))])
+            return out
         Href, Bref, S, ok, ev = reference(case, ol)
         if not ok:
             return {"status": "skipped", "why": "reference quadrature not converged", "evals": ev}
@@ -771,14 +786,14 @@ def judge(case, res):
     if res["status"] == "fail":
         return True, f"finite/{case['cls']}:{reg}", f"get{res['which']} is not a finite 3-vector: {res['got']}"
     tol = tolerance(case)
+    # H right but B off by the polarization: the interior term J[inside] is wrong, not the integral
+    if "polarization" in case["params"] and res.get("rel_H", 1.0) <= tol and res.get("b_minus_mu0h_is_j") is not None \
+            and res["b_minus_mu0h_is_j"] != res["inside"]:
+        return True, f"interior-term/{case['cls']}:{reg}", (
+            f"{case['cls']} getB - mu0*getH {'equals the polarization J' if res['b_minus_mu0h_is_j'] else 'is 0'} at an observer "
+            f"{'inside' if res['inside'] else 'outside'} the body (getH itself is not in question): "
+            f"got B = {res['got']}, expected {res['expected']}")
     if res["rel"] > tol:
-        # H right but B off by the polarization: the interior term J[inside] is wrong, not the integral
-        if "polarization" in case["params"] and res.get("rel_H", 1.0) <= tol and res.get("b_minus_mu0h_is_j") is not None \
-                and res["b_minus_mu0h_is_j"] != res["inside"]:
-            return True, f"interior-term/{case['cls']}:{reg}", (
-                f"{case['cls']} getH agrees with the surface-charge integral but getB "
-                f"{'adds' if res['b_minus_mu0h_is_j'] else 'omits'} the polarization J at an observer "
-                f"{'inside' if res['inside'] else 'outside'} the body: got {res['got']}, expected {res['expected']}")
         return True, f"{clause}/{case['cls']}:{reg}", (
             f"{case['cls']} get{res['which']} differs from the first-principles integral by "
             f"{res['rel']:.2e} of the local field scale (allowed {tol:.1e}): got {res['got']}, expected {res['expected']}")
